@@ -31,6 +31,10 @@ type TypeSpec struct {
 	Key    string      `json:"key,omitempty"`
 	// Cat names a catalogue type; Build then returns that compile-time type.
 	Cat string `json:"cat,omitempty"`
+	// TName / TPkg are the Go type name and package path of a named struct
+	// (catalogue-derived specs only; reflect.StructOf types are anonymous).
+	TName string `json:"tname,omitempty"`
+	TPkg  string `json:"tpkg,omitempty"`
 }
 
 // FieldSpec is one struct field with its tag, as components.
@@ -200,11 +204,11 @@ func fromType(rt reflect.Type, busy map[reflect.Type]bool) TypeSpec {
 		return TypeSpec{K: "array", N: rt.Len(), Elem: &e}
 	case reflect.Struct:
 		if busy[rt] {
-			return TypeSpec{K: "recursive"}
+			return TypeSpec{K: "recursive", TName: rt.Name(), TPkg: rt.PkgPath()}
 		}
 		busy[rt] = true
 		defer delete(busy, rt)
-		ts := TypeSpec{K: "struct"}
+		ts := TypeSpec{K: "struct", TName: rt.Name(), TPkg: rt.PkgPath()}
 		for i := 0; i < rt.NumField(); i++ {
 			sf := rt.Field(i)
 			fs := FieldSpec{Go: sf.Name, Unexported: !sf.IsExported(), Embedded: sf.Anonymous, BQ: sf.Tag.Get("bq")}
